@@ -22,6 +22,11 @@ import PyhamModel.Lemmas.TreeLemmas
 import PyhamModel.Lemmas.Faults
 import PyhamModel.Lemmas.Explicit
 import PyhamModel.Lemmas.RealisesLemmas
+import PyhamModel.Lemmas.Refinement
+import PyhamModel.Lemmas.Additivity
+import PyhamModel.Lemmas.FilterLemmas
+import PyhamModel.Lemmas.NamingLemmas
+import PyhamModel.Lemmas.Spelling
 namespace Pyham.Props
 open Pyham
 
@@ -57,6 +62,21 @@ theorem C03_explicit (env : Env) (fams : List (Taxon × SL))
       tops.length = fams.length ∧
       ∀ i (h1 : i < tops.length) (h2 : i < fams.length), Realises (fams[i]).1 (fams[i]).2 tops[i] :=
   Pyham.C03_explicit env fams hf hn
+
+/-- **the general case**: for every well-formed, recoverable spelled history -- elided single-member
+    levels, duplications whose copies sit several levels below the enclosing written group, groups
+    whose only content is a paralog group -- every family of the file is loaded, in order, and the
+    loaded HOG realises its history: each orthologGroup becomes one HOG at the level the MRCA rule
+    gives it, every skipped level is materialised as a single-child HOG, every duplication event sits
+    directly under a HOG at its own level with exactly its copies as members -/
+theorem C03_load_realises (env : Env) (fams : List (Taxon × SL))
+    (hf : ∀ f ∈ fams, isWrittenGrp f.2 = true ∧ wfh env.T f.1 f.2 = true ∧ recoverable f.1 f.2 = true ∧
+      Declared env f.1 f.2 ∧ (genesOf f.2).Nodup)
+    (hn : NamesInj env.T env.nm) :
+    ∃ tops ps, topElems env none (fams.flatMap fun f => encode env.T env.nm f.1 f.2) [] {} = .ok (tops, ps) ∧
+      tops.length = fams.length ∧
+      ∀ i (h1 : i < tops.length) (h2 : i < fams.length), Realises (fams[i]).1 (fams[i]).2 tops[i] :=
+  Pyham.C03_load_realises env fams hf hn
 
 /-! ## C02 — the hierarchy is a forest aligned level-by-level with the species tree -/
 
@@ -169,6 +189,85 @@ theorem C09_balance (H : Ham) (hw : H.WFc) (hs : H.sizesExact = true) (i : Nat) 
 theorem C09_root_and_total (H : Ham) :
     profileFullAt H [] = { tx := [], nbr := H.genomeSize [] } ∧ (profileFull H).map (·.tx) = H.tree.allTaxa :=
   ⟨C09_root H, C09_total H⟩
+
+/-! ## C10 — per-family tree profiles add up to the whole-dataset profile -/
+
+/-- at every non-root node of the tree the six numbers of the whole-dataset profile are the sums of
+    the per-family numbers, with singletons counted as gains at their species and each family root as
+    a gain at its taxon -/
+theorem C10_profiles_add_up (H : Ham) (hw : H.wf = true) (hs : H.sizesExact = true) (i : Nat) (u : Taxon)
+    (ht : (i :: u) ∈ H.tree.allTaxa) :
+    (profileFullAt H (i :: u)).nbr =
+        famSum H (fun top => (profileHogAt top (i :: u)).nbr) + (singletonsAt H (i :: u)).length ∧
+    on (profileFullAt H (i :: u)).gain =
+        (H.tops.filter fun p => p.2.tx == i :: u).length + (singletonsAt H (i :: u)).length ∧
+    on (profileFullAt H (i :: u)).dupl = famSum H (fun top => on (profileHogAt top (i :: u)).dupl) ∧
+    on (profileFullAt H (i :: u)).retained = famSum H (fun top => on (profileHogAt top (i :: u)).retained) ∧
+    on (profileFullAt H (i :: u)).lost = famSum H (fun top => on (profileHogAt top (i :: u)).lost) ∧
+    on (profileFullAt H (i :: u)).duplication = famSum H (fun top => on (profileHogAt top (i :: u)).duplication) :=
+  Pyham.C10_profiles_add_up H hw hs i u ht
+
+/-- the same on the level of the vertical comparison with the parent node -/
+theorem C10_additivity (H : Ham) (hw : H.wf = true) (i : Nat) (u : Taxon) (ht : (i :: u) ∈ H.tree.allTaxa) :
+    (H.nodesAt (i :: u)).length =
+        famSum H (fun top => (profileHogAt top (i :: u)).nbr) + (singletonsAt H (i :: u)).length ∧
+    (hogsMap H u (i :: u)).gain.length =
+        (H.tops.filter fun p => p.2.tx == i :: u).length + (singletonsAt H (i :: u)).length ∧
+    ((hogsMap H u (i :: u)).dupl.map (·.2.length)).sum = famSum H (fun top => on (profileHogAt top (i :: u)).dupl) ∧
+    (hogsMap H u (i :: u)).retained.length = famSum H (fun top => on (profileHogAt top (i :: u)).retained) ∧
+    (hogsMap H u (i :: u)).loss.length = famSum H (fun top => on (profileHogAt top (i :: u)).lost) ∧
+    (hogsMap H u (i :: u)).ndup = famSum H (fun top => on (profileHogAt top (i :: u)).duplication) :=
+  Pyham.C10_additivity_partial H hw i u ht
+
+/-! ## C11 — a filtered load is the projection of the full load onto the selected families -/
+
+/-- the filtered load of a file IS the unfiltered load of the projected file (only the kept genes, only
+    the kept families): unselected families and their genes are absent from everything, and the
+    position of a selected family among skipped ones cannot matter -/
+theorem C11_filtered_is_projection (T : STree) (nm : Naming) (inp : Input) (keep : String → Bool) (ids : List String)
+    (h : inp.groups.all isOgWithId = true) :
+    buildHam T nm inp keep (some ids) = buildHam T nm (projectInput inp keep ids) (fun _ => true) none :=
+  Pyham.C11_filtered_is_projection T nm inp keep ids h
+
+theorem C11_loadFiltered (T : STree) (nm : Naming) (inp : Input) (f : Filter) (h : inp.groups.all isOgWithId = true) :
+    ∃ gids hids, filterTops f inp.groups (filterGenes f inp.species, []) = .ok (gids, hids) ∧
+      loadFiltered T nm inp f = buildHam T nm (projectInput inp gids.contains hids) (fun _ => true) none :=
+  Pyham.C11_loadFiltered T nm inp f h
+
+/-- which families the first pass selects: those that are named or contain a named gene -/
+theorem C11_first_pass (f : Filter) (es : List Elem) (h : es.all isOgWithId = true)
+    (hdis : (es.map refsOf).Pairwise (fun a b => ∀ r ∈ a, r ∉ b)) (g0 h0 : List String) :
+    ∃ gids hids, filterTops f es (g0, h0) = .ok (gids, hids) ∧
+      (∀ i, i ∈ hids ↔ i ∈ h0 ∨ ∃ e ∈ es, topId e = some i ∧
+          (f.hogIds.contains i = true ∨ ∃ r ∈ refsOf e, r ∈ g0)) ∧
+      (∀ r, r ∈ gids ↔ r ∈ g0 ∨ ∃ e ∈ es, r ∈ refsOf e ∧ ∃ i, topId e = some i ∧
+          (f.hogIds.contains i = true ∨ ∃ r' ∈ refsOf e, r' ∈ g0)) :=
+  filterTops_spec f es h hdis g0 h0
+
+/-! ## C13 — equivalent ways of supplying the same data (the naming mode) -/
+
+theorem C13_naming_independent (T : STree) (nm1 nm2 : Naming) (inp : Input)
+    (hs : ∀ s ∈ inp.species, resolveSpecies T nm1 s.name = resolveSpecies T nm2 s.name)
+    (hl : noLabelL inp.groups = true) :
+    (load T nm1 inp).map (fun H => (H.tops, H.genes, H.species, H.reg)) =
+    (load T nm2 inp).map (fun H => (H.tops, H.genes, H.species, H.reg)) :=
+  Pyham.C13_naming_independent T nm1 nm2 inp hs hl
+
+theorem C13_analyses_naming (H1 H2 : Ham) (ht : H1.tree = H2.tree) (h1 : H1.tops = H2.tops) (h2 : H1.genes = H2.genes)
+    (h3 : H1.reg = H2.reg) :
+    (∀ a d, hogsMap H1 a d = hogsMap H2 a d) ∧ (∀ g1 g2, vertical H1 g1 g2 = vertical H2 g1 g2) ∧
+    (∀ g1 g2, lateral H1 g1 g2 = lateral H2 g1 g2) ∧ profileFull H1 = profileFull H2 ∧
+    (∀ top, profileHog H1 top = profileHog H2 top) :=
+  analyses_naming H1 H2 ht h1 h2 h3
+
+/-! ## C14 — results do not depend on how the file happens to be written -/
+
+/-- two spellings of one history (members and copies in any order, any group ids, with or without
+    TaxRange labels and annotations, levels elided or spelled out) are realised by exactly the same
+    hierarchies; with `C03_load_realises` both loads realise the one history -/
+theorem C14_spelling_iff (q : Taxon) (l l' : SL) (n : Node) (h : SameL l l') :
+    Realises q l n ↔ Realises q l' n :=
+  Pyham.C14_spelling_iff q l l' n h
 
 /-! ## C12 — the iHam orthoXML export declares and references exactly the member genes -/
 
